@@ -100,6 +100,8 @@ type W struct {
 	family     string
 	sampleCap  int
 	lastKey    string
+	// NoCur disables the per-item progress record (for very cheap items that cannot kill the process).
+	NoCur bool
 }
 
 // Thorough reports whether the thorough tier was requested.
@@ -128,7 +130,7 @@ func (w *W) Mine(key string) bool {
 	w.seen[h] = struct{}{}
 	w.rep.Evaluations++
 	w.lastKey = key
-	if w.curFile != nil {
+	if w.curFile != nil && !w.NoCur {
 		b := []byte(w.family + "\x00" + key + "\x00")
 		if len(b) > 4000 {
 			b = b[:4000]
@@ -171,6 +173,12 @@ func (w *W) NonTrivial() {
 	w.ntSeen[h] = struct{}{}
 	w.rep.NonTrivial++
 }
+
+// Evals adds n sub-cases executed under the current item (e.g. a term run on every stream) to the evaluation count.
+func (w *W) Evals(n int64) { w.rep.Evaluations += n }
+
+// NonTrivialN adds n distinct non-trivial sub-cases of the current item.
+func (w *W) NonTrivialN(n int64) { w.rep.NonTrivial += n }
 
 // Count adds to a named counter.
 func (w *W) Count(name string, d int64) { w.rep.Counters[name] += d }
